@@ -111,6 +111,14 @@ def chunkOp (s : ChunkSt) (toks : List String) : Option (ChunkSt × String) :=
       | some ms => some (s, s!"n={ms.length}" ++ String.join (ms.map fun m => " " ++ showMsg m))
       | none => some (s, "reject")
     | none => none
+  | ["spec.seq", data] =>
+    -- is the byte string in the class Thm B (Rml.DesSpec.feed_decodeSeq) speaks about?
+    match parseBytes data with
+    | some data =>
+      match Spec.Chunk.decodeSeq data with
+      | some ms => some (s, s!"seq n={ms.length}")
+      | none => some (s, "noseq")
+    | none => none
   | _ => none
 
 end Driver
